@@ -4,6 +4,7 @@
 //! by a global sequence counter: transport messages (tap), API operations (start / return),
 //! results of `Client::run` / `Connection::run`, task outcomes.
 
+pub mod discovery;
 pub mod program;
 pub mod roles;
 
